@@ -105,7 +105,10 @@ def straight_paths(kind, idx):
 
 
 ESC_PATHS = ["*", "**", "*.*", "**.*", "/*", "/**", "[.!=zzz]", "*[.!=zzz]", "**[.!=zzz]", "[.=~/./]", "*.*.*",
-             "[0]", "[0].*", "*[0]", "[&anc]", "*[&s]", "**[&anc]", "a", "c", "d.*", "s.*", "s[.%/]", "[a:zz]"]
+             "[0]", "[0].*", "*[0]", "[&anc]", "*[&s]", "**[&anc]", "a", "c", "d.*", "s.*", "s[.%/]", "[a:zz]",
+             # a traversal FOLLOWED by a segment, in forward-slash notation, through keys holding the other
+             # notation's separator (seed C02_4: the hash branch escaped with the query's separator)
+             "/**/*", "/**/c.d", "/**/.x", "/**/g\\/h", "/**/k l", "/**[.!=zzz]", "**.c\\.d", "/**/b"]
 
 _FAIL = {}
 
